@@ -224,6 +224,7 @@ fn encoder(steps: &[Value], c: &C) -> Bad {
                 *out.borrow_mut() = match s(a, "o") {
                     "err" => Err(mk_err(1)),
                     "none" => Ok(None),
+                    "stale" => Ok(Some(Datum::new(c.t(0), sv(now)))),      // a reading stamped older than anything written before
                     _ => Ok(Some(Datum::new(c.t(now), sv(now)))),
                 };
                 Ok(Ok(()))
@@ -274,7 +275,15 @@ fn pid(steps: &[Value], c: &C) -> Bad {
     let g = [(1.0, 2.0, 4.0), (2.0, 4.0, 1.0), (4.0, 1.0, 2.0)];
     let init_cmd = Command::new(pd(0), c.v(&json!([2, 1])));
     let init_state = c.state(&json!([[1, 1], [0, 1], [0, 1]]));
-    let w = leak(PIDWrapper::new(Motor { data: SettableData::new(), got: got.clone() }, c.t(0), init_state, init_cmd, gains(&g, c.tau())));
+    let built = {
+        let got = got.clone();
+        let (t0, gv) = (c.t(0), gains(&g, c.tau()));
+        catch(move || PIDWrapper::new(Motor { data: SettableData::new(), got }, t0, init_state, init_cmd, gv))
+    };
+    let w = match built {
+        Ok(w) => leak(w),
+        Err(p) => return Some((0, "PIDWrapper::new panicked".into(), json!("a wrapper"), json!(p))),
+    };
     let ext: Term = leak(Terminal::<E>::new());
     connect(w.get_terminal(), ext);
     // the stand-alone controller: a real CommandPID fed the times, states and commands seen at the terminal
